@@ -37,7 +37,16 @@ CFG = {
             "non-integer object of seven types (null, real, string, name, boolean, array, indirect reference: the code reads them as "
             "absent; judged: no panic, and /Predictor 1 is still the identity); every value of a 32-element boundary set (0, negatives, 2^31..2^32+1, 2^61, 2^62, "
             "i64::MAX, i64::MIN ...) in every parameter position x 5 data shapes x both entry points, plus random boundary "
-            "4-tuples. Non-trivial = accepted parameters with an encoder-shaped stream of >=2 rows, rows longer than a pixel and a "
+            "4-tuples (each also with data shaped after its geometry when rows are small); GUARD WALK (seed C07_8): data that "
+            "passes the early exits one by one so the row loop behind them is reached under degenerate geometries - predictor "
+            "{2,10..15} x written /Colors x /Columns from {0,1,2,3,5|9,-1,2^32,2^61,i64::MIN|MAX} (thorough: the whole 32-value "
+            "boundary set squared) x sample size {1,2,4,8,16} and {0,3,-8}, both entry points; for every geometry whose row (by the "
+            "generator's own 64-bit reading of the sizes) has 0 sample bytes (/Columns 0 or /Colors 0: the row is its filter-type "
+            "byte alone), 1 byte, at most one pixel (pixel as wide as or wider than the row, up to 2^61 bytes per pixel), or <= 2 "
+            "(thorough 9) bytes: rows carrying the RIGHT filter-type byte predictor-10 (for 15 each of 0..4) cut at EVERY length "
+            "0..max(8, 3 rows) (too short / not a whole number of rows / 1..8 whole rows), whole rows with every byte equal to "
+            "the tag, one wrong filter-type byte at row i of 1/3/8 rows (the rows before it pass), mixed bytes 0..4; for unusable or "
+            "unfillable geometries 1, 2, 8 bytes of the right tag. Non-trivial = accepted parameters with an encoder-shaped stream of >=2 rows, rows longer than a pixel and a "
             "predictor other than None; or parameters outside the accepted set (predictor != 1); or a Paeth line.",
     "trusted_base": COMMON_TB + [
         "modelled, not verified: Vec/slice indexing and chunks_exact as list take/drop/index; Wrapping<u8>/<u16> as UInt8/UInt16; "
